@@ -152,6 +152,10 @@ func Open(sr *io.SectionReader, opt ...OpenOption) (*Reader, error) {
 		if tocOffset >= 0 && tocSize <= 0 {
 			tocSize = sr.Size() - tocOffset - fSize
 		}
+		if tocOffset >= 0 && (tocOffset > sr.Size() || tocSize < 0 || tocSize > sr.Size()-tocOffset) {
+			allErr = append(allErr, fmt.Errorf("invalid TOC position (offset %d, size %d) in blob of size %d", tocOffset, tocSize, sr.Size()))
+			continue
+		}
 		if tocOffset >= 0 && tocSize < int64(len(maybeTocBytes)) {
 			maybeTocBytes = maybeTocBytes[:tocSize]
 		}
